@@ -183,6 +183,16 @@ def check(st, scn):
                 st.violation("references", "cited-reference-missing-from-product", sc, cited, titles)
                 ok = False
                 break
+        # a reference arrives as it was in the input that cited it (authors, journal, ids, base range)
+        src = {}
+        for r_ in records.values():
+            for x_ in r_.annotations.get("references", []) or []:
+                src.setdefault(ref_id(x_), snapshot._plain(x_))
+        for x_ in refs:
+            if ref_id(x_) in src and snapshot._plain(x_) != src[ref_id(x_)]:
+                st.violation("references", "reference-altered-on-its-way-into-the-product", sc, src[ref_id(x_)], snapshot._plain(x_))
+                ok = False
+                break
         feats = {asm.qual1(f, "label", "?"): f for f in prod.features if f.type != "source"}
         for label, want in expect.items():
             f = feats.get(label)
